@@ -241,7 +241,8 @@ def _normalisation_note(ctx: "Ctx") -> T.Dict[str, T.Any]:
             "kwargs_splats_expanded": normalise.LAST_RUN.get("kwargs_splats_expanded", 0),
             "bool_returns_expanded": normalise.LAST_RUN.get("bool_returns_expanded", 0),
             "accumulated_replace_expanded": normalise.LAST_RUN.get("accumulated_replace_expanded", 0),
-            "compare_chains_split": normalise.LAST_RUN.get("compare_chains_split", 0)}
+            "compare_chains_split": normalise.LAST_RUN.get("compare_chains_split", 0),
+            "inplace_sorts_merged": normalise.LAST_RUN.get("inplace_sorts_merged", 0)}
 
 
 def write_evidence(ctx: Ctx, mod: T.Any, wall: float, known_matched: T.List[str], new: T.List[Finding],
